@@ -529,6 +529,9 @@ fn main() {
             Cfg { worlds: vec![1, 4], ticks: 2, drops: 1, dups: 0, acks: 2, cap: 4, send_empty: false, resets: 1 },
             Cfg { worlds: vec![1, 6], ticks: 3, drops: 0, dups: 0, acks: 2, cap: 4, send_empty: true, resets: 1 },
             Cfg { worlds: vec![6, 7], ticks: 2, drops: 0, dups: 1, acks: 2, cap: 4, send_empty: false, resets: 2 },
+            // a receiver that has reset refuses a delta still in flight (unknown base); the next
+            // message may be the data-less one for the empty world against the empty base
+            Cfg { worlds: vec![1, 2, 0], ticks: 3, drops: 0, dups: 0, acks: 2, cap: 4, send_empty: true, resets: 1 },
         ],
         Tier::Thorough => vec![
             // sized on this machine (depth-first): 287 M, 17 M, 298 M, 49 M, 6 M, 6 M states
